@@ -2,6 +2,7 @@ package vc
 
 import (
 	"fmt"
+	"regexp"
 	"go/types"
 	"strings"
 
@@ -9,6 +10,8 @@ import (
 )
 
 const maxInlineDepth = 6
+
+var observerRe = regexp.MustCompile(`\b(callarg|callres|ncalls|lastarg|lastres|lastbytes)\(`)
 
 func (fr *frame) call(v ssa.Value, c *ssa.CallCommon) Val {
 	u := fr.u
@@ -74,10 +77,17 @@ func (fr *frame) callFunction(v ssa.Value, callee *ssa.Function, args, binds []V
 	}
 	fr.callLog[callee.Name()] = append(fr.callLog[callee.Name()], args)
 	fr.beforeCall(callee.Name(), args, pos)
+	var res Val
 	if u.trackCalls[callee.Name()] {
-		return fr.trackedCall(v, callee, args, binds, pos)
+		res = fr.trackedCall(v, callee, args, binds, pos)
+	} else {
+		res = fr.callFunction2(v, callee, args, binds, pos)
 	}
-	return fr.callFunction2(v, callee, args, binds, pos)
+	if fr.resLog == nil {
+		fr.resLog = map[string][]Val{}
+	}
+	fr.resLog[callee.Name()] = append(fr.resLog[callee.Name()], res)
+	return res
 }
 
 // trackedCall maintains the ghost call record of functions named in ncalls()/lastarg()/lastres()
@@ -328,6 +338,9 @@ func (fr *frame) contractCall(v ssa.Value, callee *ssa.Function, ct *Contract, a
 		}
 	}
 	for k, en := range ct.Ensures {
+		if observerRe.MatchString(en.Src) {
+			continue // an assertion about the callee's own calls: not visible to callers
+		}
 		if _, err := post.boolExpr(en.E); err != nil {
 			u.bindingError(fmt.Sprintf("postcondition %d of %s: %v", k+1, ct.Key, err))
 			continue
@@ -384,6 +397,18 @@ func (env *specEnv) resolveModifies(mk string) (ts []modTarget, ok bool) {
 			ts = append(ts, modTarget{u.keyM(sl.Elem()), ""})
 		}
 		return ts, true
+	}
+	if strings.HasPrefix(mk, "contents(") && strings.HasSuffix(mk, ")") {
+		// the element store of a slice-typed expression (any backing array of that element type)
+		inner := strings.TrimSuffix(strings.TrimPrefix(mk, "contents("), ")")
+		if e, err := ParseSpec(inner); err == nil {
+			if v, err := env.anyExpr(e, nil); err == nil && v.typ != nil {
+				if sl, ok := v.typ.Underlying().(*types.Slice); ok {
+					return []modTarget{{u.keyM(sl.Elem()), ""}}, true
+				}
+			}
+		}
+		return nil, false
 	}
 	if strings.HasPrefix(mk, "bitmap(") && strings.HasSuffix(mk, ")") {
 		inner := strings.TrimSuffix(strings.TrimPrefix(mk, "bitmap("), ")")
@@ -551,6 +576,12 @@ func (fr *frame) havocAllMark(why, mark string) {
 		fr.st.over[k] = keep[k]
 	}
 	u.note("code without contract is assumed lock-neutral (ghost lock state kept across it)")
+	for _, gi := range u.globalInvs {
+		genv := &specEnv{u: u, st: fr.st, old: fr.st, vars: map[string]Val{}, pkgPath: gi.PkgPath}
+		if t, err := genv.boolExpr(gi.C.E); err == nil {
+			fr.assume(t)
+		}
+	}
 }
 
 func (fr *frame) unknownCall(v ssa.Value, name string, args []Val, sig *types.Signature) Val {
@@ -644,9 +675,21 @@ func (fr *frame) invokeCallVals(v ssa.Value, c *ssa.CallCommon, recv Val, rest [
 	u := fr.u
 	name := c.Method.Name()
 	fr.beforeCall(name, append([]Val{recv}, rest...), v.(ssa.Instruction))
-	if !u.trackCalls[name] {
-		return fr.invokeCallVals2(v, c, recv, rest)
+	if fr.callLog == nil {
+		fr.callLog = map[string][][]Val{}
 	}
+	if fr.resLog == nil {
+		fr.resLog = map[string][]Val{}
+	}
+	fr.callLog[name] = append(fr.callLog[name], append([]Val{recv}, rest...))
+	if !u.trackCalls[name] {
+		r := fr.invokeCallVals2(v, c, recv, rest)
+		fr.resLog[name] = append(fr.resLog[name], r)
+		return r
+	}
+	defer func() {
+		// the tracked path records the result below
+	}()
 	ck := u.regKey("Calls."+name, "Int")
 	fr.st.set(ck, "(+ "+fr.st.get(u, ck)+" 1)")
 	for i, a := range rest {
@@ -680,6 +723,7 @@ func (fr *frame) invokeCallVals(v ssa.Value, c *ssa.CallCommon, recv Val, rest [
 			fr.st.set(u.regKey("Res."+name, "Ifc"), last.t)
 		}
 	}
+	fr.resLog[name] = append(fr.resLog[name], res)
 	return res
 }
 
@@ -799,6 +843,9 @@ func (fr *frame) contractCallSig(v ssa.Value, ct *Contract, sig *types.Signature
 	}
 	post := &specEnv{u: u, st: fr.st, old: pre, vars: env.vars, pkgPath: ct.PkgPath, results: rs, resultSig: sig}
 	for k, en := range ct.Ensures {
+		if observerRe.MatchString(en.Src) {
+			continue // an assertion about the callee's own calls: not visible to callers
+		}
 		if _, err := post.boolExpr(en.E); err != nil {
 			u.bindingError(fmt.Sprintf("postcondition %d of %s: %v", k+1, ct.Key, err))
 			continue
